@@ -393,7 +393,7 @@ def c01a(F, R):
     _ownership(F, R, VALUE_FIELDS, "AvailableValuePass", "C01.a")
 
 
-@rule("C02", "C02.b.liveness-ownership", floor=12)
+@rule("C02", "C02.b.liveness-ownership", floor=9)
 def c02b(F, R):
     """liveness facts (live_in, live_out, u_def) are written only by LivenessPass"""
     _ownership(F, R, LIVE_FIELDS, "LivenessPass", "C02.b")
@@ -641,12 +641,15 @@ def c02d(F, R):
     f = _livepass_run(F)
     # branch structure: if-let calls_to_from_cfg / else-if is_ecall / is_return / is_function_entry / else
     branches = {}
+    all_blocks = {}
     for n in walk(f["hir"]["value"]):
         if n.get("k") == "If":
             c = n["cond"]
             for nm in ("calls_to_from_cfg", "is_ecall", "is_return", "is_function_entry"):
-                if mentions_call(c, nm) and nm not in branches:
-                    branches[nm] = n["then"]
+                if mentions_call(c, nm):
+                    all_blocks.setdefault(nm, []).append(n["then"])
+                    if nm not in branches:
+                        branches[nm] = n["then"]
     need = {
         "calls_to_from_cfg": ["argument_set", "kill_reg", "gen_reg", "caller_saved_set", "return_set"],
         "is_ecall": ["caller_saved_set", "ecall_always_argument_set", "known_ecall_signature"],
@@ -658,7 +661,8 @@ def c02d(F, R):
         if blk is None:
             R.bad(f"branch|{br}", f"LivenessPass::run has no `{br}` branch", f["sp"])
             continue
-        missing = [nm for nm in names if not mentions_call(blk, nm)]
+        # the live part and the u_def part of one instruction kind may sit in two sweeps of the pass: look at all its branches
+        missing = [nm for nm in names if not any(mentions_call(b_, nm) for b_ in all_blocks.get(br, [blk]))]
         if missing:
             R.bad(f"branch|{br}", f"the `{br}` transfer function no longer uses {missing}", loc(blk))
         else:
@@ -1402,8 +1406,8 @@ def c01e(F, R):
             R.bad(f"Arith|{v}", f"`{v.lower()} rd, x0, x0` is claimed to produce {c}; RV32IM gives {op}(0, 0) = {want}", loc(ar))
 
 
-@rule("C12", "C12.e.monotone-predecessor-filter", floor=6)
-@rule("C06", "C06.t.monotone-predecessor-filter", floor=6)
+@rule("C12", "C12.e.monotone-predecessor-filter", floor=4)
+@rule("C06", "C06.t.monotone-predecessor-filter", floor=4)
 def c12e(F, R):
     """in the fixed-point loops a neighbour is filtered out of the meet only by membership in a grow-only `visited` set (a filter on the facts themselves is not monotone: the iteration can oscillate forever)"""
     for f in (_avpass_run(F), _livepass_run(F)):
@@ -1879,9 +1883,22 @@ def c02g(F, R):
     """an ecall whose number the value analysis does not know may read any argument register: liveness must assume it does, or the argument set-up before a computed service number is reported as an unused value"""
     f = _livepass_run(F)
     hit = None
+    from .p_parse import parent_map
+    pm = parent_map(f["hir"]["value"])
     for n in walk(f["hir"]["value"], pats=False):
         if n.get("k") == "MethodCall" and n["name"] in ("unwrap_or_default", "unwrap_or", "unwrap_or_else", "map_or", "map_or_else") and mentions_call(n["recv"], "known_ecall_signature"):
-            hit = n
+            # which components of (arguments, results) does this use take?
+            x = n
+            takes_args = True
+            while id(x) in pm:
+                x = pm[id(x)]
+                if x.get("k") == "Let":
+                    pt = x["pat"]
+                    if pt.get("k") == "PTuple" and len(pt["pats"]) == 2:
+                        takes_args = pt["pats"][0].get("k") != "PWild"
+                    break
+            if takes_args:
+                hit = n
     if hit is None:
         R.bad("fallback", "UNEXTRACTABLE: LivenessPass no longer reads `known_ecall_signature()` with a fallback", f["sp"])
         return
